@@ -21,12 +21,47 @@ from ..report import Finding, RuleResult, floor
 PROP = 'C18'
 
 
+_LEAF = {}
+
+
+def leaf_helpers(prog):
+    """module-level functions of the OBDD module that take no part in the
+    recursion of the expression parser (neither recursive nor calling a
+    recursive function): they are inlined, so that `raise helper(node)` or
+    `_fold(op, neutral, ...)` are seen through"""
+    if id(prog) in _LEAF:
+        return _LEAF[id(prog)]
+    mod = prog.module('BDD.OBDD')
+    calls = {}
+    for name, f in mod.funcs.items():
+        calls[name] = set(
+            n.func.id for n in ast.walk(f.node)
+            if isinstance(n, ast.Call) and isinstance(n.func, ast.Name) and
+            n.func.id in mod.funcs)
+    reach = {k: set(v) for k, v in calls.items()}
+    changed = True
+    while changed:
+        changed = False
+        for k in reach:
+            for m in list(reach[k]):
+                new = reach[m] - reach[k]
+                if new:
+                    reach[k] |= new
+                    changed = True
+    rec = set(k for k in reach if k in reach[k])
+    leaf = set(mod.funcs[k].qn for k in reach
+               if k not in rec and not (reach[k] & rec))
+    _LEAF[id(prog)] = leaf
+    return leaf
+
+
 class _NoInline(Hooks):
-    def __init__(self, entry):
+    def __init__(self, entry, leaf=()):
         self.entry = entry
+        self.leaf = leaf
 
     def inline(self, I, fi, args):
-        return fi is self.entry
+        return fi is self.entry or fi.qn in self.leaf
 
     def construct(self, I, ci, args, kw, path, node):
         if isinstance(ci, ClassInfo):
@@ -48,15 +83,24 @@ def parser_functions(prog):
             seeds.append(f)
     seen = {}
     todo = list(seeds)
+    tables = {}
+    for st in mod.tree.body:
+        if isinstance(st, ast.Assign) and len(st.targets) == 1 and \
+                isinstance(st.targets[0], ast.Name):
+            tables[st.targets[0].id] = st.value
     while todo:
         f = todo.pop()
         if f.qn in seen:
             continue
         seen[f.qn] = f
         for n in ast.walk(f.node):
-            if isinstance(n, ast.Call) and isinstance(n.func, ast.Name) and \
-                    n.func.id in mod.funcs:
-                todo.append(mod.funcs[n.func.id])
+            if isinstance(n, ast.Name) and n.id in mod.funcs:
+                todo.append(mod.funcs[n.id])
+            elif isinstance(n, ast.Name) and n.id in tables:
+                # a module-level dispatch table naming the handlers
+                for m in ast.walk(tables[n.id]):
+                    if isinstance(m, ast.Name) and m.id in mod.funcs:
+                        todo.append(mod.funcs[m.id])
     return seeds, [f for f in seen.values() if f not in seeds]
 
 
@@ -65,7 +109,7 @@ def rule_bp1(prog, funcs):
                    'OBDD-valued expression or raises SyntaxError')
     results = {}
     for f in sorted(funcs, key=lambda x: x.qn):
-        I = Interp(prog, _NoInline(f), rule='R-BP-1')
+        I = Interp(prog, _NoInline(f, leaf_helpers(prog)), rule='R-BP-1')
         path = I.new_path()
         args = [Sym(a.arg) for a in f.node.args.args]
         res = I.call_function(FRef(f), args, [], path, f.node)
